@@ -58,21 +58,21 @@ class TransferShelveCache:
 
         with shelve.open(db_path, flag='c') as database:
             # Update/add transfers
+            written_keys = set()
             for transfer in transfers:
                 key = hashlib.sha256(
-                    (
-                        transfer.username +
-                        transfer.remote_path +
+                    '\x00'.join((
+                        transfer.username,
+                        transfer.remote_path,
                         str(transfer.direction.value)
-                    ).encode('utf-8')
+                    )).encode('utf-8')
                 ).hexdigest()
                 database[key] = transfer
+                written_keys.add(key)
 
             # Remove non existing transfers
-            keys_to_delete = []
-            for key, db_transfer in database.items():
-                if not any(transfer == db_transfer for transfer in transfers):
-                    keys_to_delete.append(key)
+            keys_to_delete = [
+                key for key in database.keys() if key not in written_keys]
             for key_to_delete in keys_to_delete:
                 database.pop(key_to_delete)
 
